@@ -31,7 +31,7 @@ pub struct Plan
 //-------------------------------------------------------------------------------------------------------------------
 // alphabet helpers
 
-fn all_actors(i: &DynInfo) -> impl Iterator<Item = ActorId> { 0..i.n_actors as ActorId }
+fn all_actors(i: &DynInfo) -> impl Iterator<Item = ActorId> { i.ready_actors().into_iter() }
 fn all_ents(i: &DynInfo) -> impl Iterator<Item = EntId> { 0..i.n_ents as EntId }
 
 /// Runner-core alphabet: Run / SysEvent / DespawnSys over all actors + broadcast EvA.
@@ -223,7 +223,7 @@ pub fn plan(property: &str, tier: Tier) -> Option<Plan>
                     // only the first two runs send (one sender delivering a sequence, possibly relayed once)
                     if i.runs_so_far > 2 { return Vec::new(); }
                     let mut v = Vec::new();
-                    for a in 0..i.n_actors as ActorId { v.push(Op::Run(a)); v.push(Op::SysEvent(a)); }
+                    for a in i.ready_actors() { v.push(Op::Run(a)); v.push(Op::SysEvent(a)); }
                     v.push(Op::Broadcast(Ev::A));
                     v.push(Op::EntityEvent(Ev::A, 0));
                     v.push(Op::Mutate(Comp::A, 0, How::GetMut));
@@ -346,7 +346,7 @@ pub fn plan(property: &str, tier: Tier) -> Option<Plan>
                     v.push(Op::Broadcast(Ev::A));
                     v.push(Op::Broadcast(Ev::B));
                     v.push(Op::EntityEvent(Ev::A, 0));
-                    for a in 0..i.n_actors as ActorId { v.push(Op::SysEvent(a)); v.push(Op::DespawnSys(a)); }
+                    for a in i.ready_actors() { v.push(Op::SysEvent(a)); v.push(Op::DespawnSys(a)); }
                     v.push(Op::Despawn(0));
                     v
                 });
@@ -361,6 +361,346 @@ pub fn plan(property: &str, tier: Tier) -> Option<Plan>
             rule = "events with 0..3 listeners (entity-scoped + type-wide, taking and non-taking system-event readers) \
                 and fault ops (despawn listener system, despawn target entity) placed by earlier listeners between \
                 scheduling and running, listeners postponed by recursion, events to dead systems/entities".into();
+            assumptions = base_assumptions;
+        }
+
+        "C01" | "C06" =>
+        {
+            let is1 = property == "C01";
+            // trigger groups whose members share map keys / lists
+            let groups: Vec<(&str, Vec<Trig>, Vec<Op>)> = vec![
+                ("events", vec![Trig::Broadcast(Ev::A), Trig::Broadcast(Ev::B), Trig::EntityEvent(Ev::A, 0), Trig::AnyEntityEvent(Ev::A)],
+                    vec![Op::Broadcast(Ev::A), Op::Broadcast(Ev::B), Op::EntityEvent(Ev::A, 0), Op::EntityEvent(Ev::A, 1)]),
+                ("components", vec![Trig::Insertion(Comp::A), Trig::Mutation(Comp::A), Trig::EntityInsertion(Comp::A, 0), Trig::EntityMutation(Comp::A, 0)],
+                    vec![Op::Insert(Comp::A, 0, 0), Op::Insert(Comp::A, 1, 0), Op::Mutate(Comp::A, 0, How::GetMut), Op::Mutate(Comp::B, 0, How::GetMut)]),
+                ("resource-entity", vec![Trig::ResMut, Trig::EntityMutation(Comp::A, 0), Trig::EntityMutation(Comp::A, 1), Trig::EntityEvent(Ev::A, 1)],
+                    vec![Op::ResMutate(How::GetMut), Op::Mutate(Comp::A, 0, How::GetMut), Op::Mutate(Comp::A, 1, How::GetMut), Op::EntityEvent(Ev::A, 1), Op::EntityEvent(Ev::B, 1)]),
+            ];
+            for (gname, trigs, fires) in groups
+            {
+                // (a)/(b): top-level histories
+                let ds: &[u32] = if q { &[3] } else { &[3, 4, 5] };
+                for &d in ds
+                {
+                    let mut c = Config::base(&format!("{property}/hist/{gname}/D{d}"));
+                    c.actors = vec![Variant::Plain, Variant::Plain];
+                    c.n_ents = 2;
+                    c.setup = vec![Op::Insert(Comp::A, 0, 0), Op::Insert(Comp::A, 1, 0), Op::Insert(Comp::B, 0, 0)];
+                    let trigs2 = trigs.clone();
+                    let fires2 = fires.clone();
+                    let bundles: Vec<Bundle> = if is1
+                    {
+                        trigs2.iter().map(|t| Bundle::one(*t)).collect()
+                    }
+                    else
+                    {
+                        // C06: multi-trigger bundles (pairs across kinds / same kind, a triple)
+                        let mut b: Vec<Bundle> = vec![Bundle::one(trigs2[0]), Bundle::two(trigs2[0], trigs2[1]), Bundle::two(trigs2[2], trigs2[3])];
+                        b.push(Bundle::three(trigs2[0], trigs2[2], Trig::Despawn(1)));
+                        b
+                    };
+                    c.top = Arc::new(move |i: &DynInfo| {
+                        let mut v = Vec::new();
+                        for b in bundles.iter()
+                        {
+                            if i.n_actors < 4
+                            {
+                                v.push(Op::RegisterNew(Variant::Plain, *b, Mode::Revokable));
+                                if is1 { v.push(Op::RegisterNew(Variant::Plain, *b, Mode::Cleanup)); }
+                            }
+                            for a in 0..2u8 { v.push(Op::Register(a, *b, Mode::Persistent)); }
+                        }
+                        for k in i.ready_tokens() { v.push(Op::Revoke(k)); }
+                        for f in fires2.iter() { v.push(*f); }
+                        if is1
+                        {
+                            for a in i.ready_actors() { v.push(Op::DespawnSys(a)); }
+                            v.push(Op::Despawn(0));
+                        }
+                        v
+                    });
+                    c.max_top = d;
+                    c.budget = d;
+                    c.sym_actors = vec![vec![0, 1]];
+                    c.final_gc = true;
+                    c.max_runs = 200;
+                    items.push(item(c, &format!("hist-{gname}"), &format!("D={d}")));
+                }
+                // (c): edits while a dispatch is in flight
+                let ns: &[u32] = if q { &[3] } else { &[3, 4] };
+                for &n in ns
+                {
+                    let mut c = Config::base(&format!("{property}/intree/{gname}/N{n}"));
+                    c.actors = vec![Variant::Plain, Variant::Plain, Variant::Plain];
+                    c.n_ents = 2;
+                    let t0 = trigs[0];
+                    let t1 = trigs[2];
+                    c.setup = vec![
+                        Op::Insert(Comp::A, 0, 0), Op::Insert(Comp::A, 1, 0), Op::Insert(Comp::B, 0, 0),
+                        Op::Register(0, Bundle::one(t0), Mode::Persistent),
+                        Op::RegisterNew(Variant::Plain, Bundle::two(t0, t1), Mode::Revokable),
+                        Op::Register(1, Bundle::two(t0, t1), Mode::Persistent),
+                    ];
+                    c.fixed_top = vec![fires[0]];
+                    let fires2 = fires.clone();
+                    let trigs2 = trigs.clone();
+                    c.script = Arc::new(move |i: &DynInfo| {
+                        let mut v = Vec::new();
+                        for k in i.ready_tokens() { v.push(Op::Revoke(k)); }
+                        v.push(fires2[0]);
+                        v.push(fires2[2]);
+                        v.push(Op::Register(2, Bundle::one(trigs2[0]), Mode::Persistent));
+                        if i.n_actors < 5 { v.push(Op::RegisterNew(Variant::Plain, Bundle::one(trigs2[0]), Mode::Revokable)); }
+                        v.push(Op::DespawnSys(1));
+                        v.push(Op::DespawnSys(3));
+                        v
+                    });
+                    c.budget = n;
+                    c.max_runs = 300;
+                    c.final_gc = true;
+                    items.push(item(c, &format!("intree-{gname}"), &format!("N={n}")));
+                }
+            }
+            reports = vec![if is1 { "C01" } else { "C06" }];
+            rule = "histories of register (new reactor in each mode / existing reactor) / revoke / fire / despawn over \
+                trigger groups that share keys (events; component tables; resource + entity-scoped), at top level (depth \
+                D) and from inside reactor bodies while a dispatch is in flight (budget N); every fire must reach \
+                exactly the live matching registrations and the implementation's tables must equal the abstract table \
+                at every quiescent point".into();
+            assumptions = {
+                let mut a = base_assumptions;
+                a.push("two separate revokable registrations of the same reactor for the same trigger are not generated \
+                    (their revocation semantics are not defined by the statement)".into());
+                a
+            };
+        }
+        "C07" | "C15" =>
+        {
+            let is7 = property == "C07";
+            let ds: &[u32] = if q { &[4] } else { &[4, 5, 6] };
+            for &d in ds
+            {
+                let mut c = Config::base(&format!("{property}/life/D{d}"));
+                c.actors = vec![Variant::Plain];
+                c.n_ents = 2;
+                let bundles = vec![
+                    Bundle::EMPTY,
+                    Bundle::one(Trig::Broadcast(Ev::A)),
+                    Bundle::one(Trig::EntityEvent(Ev::A, 0)),
+                    Bundle::one(Trig::Despawn(0)),
+                    Bundle::two(Trig::Despawn(0), Trig::Despawn(1)),
+                    Bundle::two(Trig::EntityEvent(Ev::A, 0), Trig::Despawn(1)),
+                    Bundle::two(Trig::Broadcast(Ev::A), Trig::ResMut),
+                ];
+                c.top = Arc::new(move |i: &DynInfo| {
+                    let mut v = Vec::new();
+                    if i.n_actors < 3
+                    {
+                        for b in bundles.iter()
+                        {
+                            if is7
+                            {
+                                for m in [Mode::Persistent, Mode::Cleanup, Mode::Revokable] { v.push(Op::RegisterNew(Variant::Plain, *b, m)); }
+                            }
+                            else { v.push(Op::Once(Variant::Plain, *b)); }
+                        }
+                    }
+                    for k in i.ready_tokens() { v.push(Op::Revoke(k)); }
+                    v.push(Op::Broadcast(Ev::A));
+                    v.push(Op::EntityEvent(Ev::A, 0));
+                    v.push(Op::ResMutate(How::GetMut));
+                    v.push(Op::Despawn(0));
+                    v.push(Op::Despawn(1));
+                    v.push(Op::Gc);
+                    v.push(Op::Poll);
+                    v.push(Op::Run(0));
+                    v
+                });
+                // new reactors (and actor 0) fire triggers from inside their runs (self-triggering, nested, several
+                // triggers in one tree)
+                c.script = Arc::new(move |_i: &DynInfo| {
+                    vec![Op::Broadcast(Ev::A), Op::EntityEvent(Ev::A, 0), Op::Despawn(0), Op::ResMutate(How::GetMut)]
+                });
+                c.max_top = d;
+                c.budget = d + 1;
+                c.max_per_run = 2;
+                c.final_gc = true;
+                c.max_runs = 200;
+                items.push(item(c, "life", &format!("D={d}")));
+            }
+            reports = vec![if is7 { "C07" } else { "C15" }];
+            rule = if is7 {
+                "histories of registering new reactors (every mode x bundles incl. empty, despawn triggers, entity \
+                 triggers that may name dead entities), revoke, fire, despawn trigger entities, explicit garbage \
+                 collection and polling; liveness of every reactor sampled at every command marker and compared with the \
+                 abstract reference count; captured canary drop <=> reactor gone".into()
+            } else {
+                "histories of one-off reactors (bundles incl. empty and multi-trigger), fires at top level and from \
+                 inside runs (self-triggering, several triggers in one tree), revoke at any point, garbage collection; \
+                 run count <= 1, entity and registrations gone afterwards".into()
+            };
+            assumptions = base_assumptions;
+        }
+        "C08" =>
+        {
+            for update in [false, true]
+            {
+                let ds: &[u32] = if q { &[4] } else { &[4, 5, 6] };
+                for &d in ds
+                {
+                    let mut c = Config::base(&format!("C08/{}/D{d}", if update { "frames" } else { "flush" }));
+                    c.actors = vec![Variant::Plain, Variant::Plain];
+                    c.n_ents = 2;
+                    c.children = vec![(1, 0)];
+                    c.setup = vec![
+                        Op::Insert(Comp::A, 0, 0), Op::Insert(Comp::A, 1, 0),
+                        Op::Register(0, Bundle::two(Trig::Removal(Comp::A), Trig::Despawn(0)), Mode::Persistent),
+                        Op::Register(1, Bundle::three(Trig::EntityRemoval(Comp::A, 0), Trig::Despawn(0), Trig::Despawn(1)), Mode::Persistent),
+                    ];
+                    let alpha: AlphabetFn = Arc::new(move |i: &DynInfo| {
+                        let mut v = vec![
+                            Op::Insert(Comp::A, 0, 1), Op::Insert(Comp::A, 1, 1),
+                            Op::RemoveComp(Comp::A, 0), Op::RemoveComp(Comp::A, 1),
+                            Op::Despawn(0), Op::Despawn(1), Op::DespawnRecursive(0),
+                            Op::Run(0), Op::Run(1),
+                        ];
+                        if !update { v.push(Op::Poll); }
+                        if i.n_actors < 3 { v.push(Op::RegisterNew(Variant::Plain, Bundle::two(Trig::Removal(Comp::A), Trig::Despawn(1)), Mode::Cleanup)); }
+                        v
+                    });
+                    c.top = alpha.clone();
+                    c.script = alpha;
+                    c.max_top = d;
+                    c.budget = d;
+                    c.max_per_run = 2;
+                    c.update_after_top = update;
+                    c.final_gc = !update;
+                    c.max_runs = 200;
+                    items.push(item(c, if update { "frames" } else { "flush" }, &format!("D={d}")));
+                }
+            }
+            reports = vec!["C08"];
+            rule = "histories of insert / remove / re-insert / despawn / recursive despawn of a parent (entity 1 is a child \
+                of entity 0) at top level and from inside reactor runs, with type-wide and entity-scoped removal \
+                reactors, one or two despawn reactors per entity, explicit polls ('flush' series) or a full App::update \
+                after every top-level operation ('frames' series: polled by the Last schedule); the monitor requires \
+                exactly one reaction per removal / despawn per registration live throughout, by the end of the \
+                enclosing tree or the next poll, and none without a cause".into();
+            assumptions = {
+                let mut a = base_assumptions;
+                a.push("plain Bevy systems of an App are represented by top-level command batches followed by \
+                    App::update(); every order of the operations is enumerated, parallel system execution is Bevy's \
+                    domain".into());
+                a.push("reactors registered after a removal but before the poll that sees it may or may not react (not \
+                    judged); entity-scoped removal reactors of a despawned entity are not required to run".into());
+                a
+            };
+        }
+        "C14" =>
+        {
+            let ns: &[u32] = if q { &[3] } else { &[3, 4, 5] };
+            for &n in ns
+            {
+                let mut c = Config::base(&format!("C14/accessors/N{n}"));
+                c.actors = vec![Variant::Plain, Variant::Plain];
+                c.n_ents = 2;
+                c.setup = vec![
+                    Op::Insert(Comp::A, 0, 0),
+                    Op::Register(1, Bundle::three(Trig::Insertion(Comp::A), Trig::Mutation(Comp::A), Trig::ResMut), Mode::Persistent),
+                    Op::Register(1, Bundle::two(Trig::EntityMutation(Comp::A, 0), Trig::EntityInsertion(Comp::A, 1)), Mode::Persistent),
+                ];
+                c.fixed_top = vec![Op::Run(0)];
+                let alpha: AlphabetFn = Arc::new(|i: &DynInfo| {
+                    // the probe reactor (actor 1) does nothing
+                    if let Where::Script(r, _) = i.at { if r.actor == 1 { return Vec::new(); } }
+                    let mut v = Vec::new();
+                    for e in 0..2u8
+                    {
+                        for how in [How::GetMut, How::SetIfNeq(0), How::SetIfNeq(1), How::NoReact(1), How::Read, How::Trigger]
+                        {
+                            v.push(Op::Mutate(Comp::A, e, how));
+                        }
+                        v.push(Op::Insert(Comp::A, e, 0));
+                        v.push(Op::Insert(Comp::A, e, 1));
+                    }
+                    for how in [How::GetMut, How::SetIfNeq(0), How::SetIfNeq(1), How::NoReact(1), How::Read, How::Trigger]
+                    {
+                        v.push(Op::ResMutate(how));
+                    }
+                    v.push(Op::Despawn(1));
+                    v.push(Op::Run(0));
+                    v
+                });
+                c.script = alpha.clone();
+                c.top = alpha;
+                c.max_top = 1;
+                c.budget = n;
+                c.max_per_run = 3;
+                c.max_runs = 300;
+                items.push(item(c, "accessors", &format!("N={n}")));
+            }
+            reports = vec!["C14"];
+            rule = "every accessor of reactive components and resources (get_mut, set_if_neq with equal / different value, \
+                get_noreact, read, trigger_mutation / trigger_resource_mutation) and ReactCommands::insert on an entity \
+                that is alive, has / lacks the component, or is despawned between queuing and applying, 1..3 calls per \
+                run; a probe reactor listens type-wide and entity-scoped; reaction count per call, stored value and \
+                set_if_neq's returned old value are compared with the abstract state".into();
+            assumptions = {
+                let mut a = base_assumptions;
+                a.push("accessors are exercised through ReactiveMut / ReactResMut inside a syscall issued by the command \
+                    (apply-time semantics); the `single*` convenience wrappers (which panic unless exactly one entity \
+                    matches) are not exercised".into());
+                a
+            };
+        }
+        "C18" =>
+        {
+            let ns: &[u32] = if q { &[3] } else { &[3, 4] };
+            for &n in ns
+            {
+                let mut c = Config::base(&format!("C18/stale/N{n}"));
+                c.actors = vec![Variant::Plain, Variant::Plain];
+                c.n_ents = 2;
+                c.setup = vec![
+                    Op::Insert(Comp::A, 0, 0),
+                    Op::Register(1, Bundle::three(Trig::Broadcast(Ev::A), Trig::AnyEntityEvent(Ev::A), Trig::Insertion(Comp::A)), Mode::Persistent),
+                    Op::Register(1, Bundle::three(Trig::EntityEvent(Ev::A, 0), Trig::EntityMutation(Comp::A, 0), Trig::Mutation(Comp::A)), Mode::Persistent),
+                    Op::RegisterNew(Variant::Plain, Bundle::three(Trig::Broadcast(Ev::A), Trig::EntityEvent(Ev::A, 0), Trig::Despawn(0)), Mode::Revokable),
+                ];
+                c.fixed_top = vec![Op::Run(0)];
+                let alpha: AlphabetFn = Arc::new(|i: &DynInfo| {
+                    let mut v = Vec::new();
+                    // despawn points
+                    v.push(Op::Despawn(0));
+                    for a in i.ready_actors() { v.push(Op::DespawnSys(a)); }
+                    // every operation that names a target
+                    for a in i.ready_actors() { v.push(Op::Run(a)); v.push(Op::SysEvent(a)); }
+                    v.push(Op::Broadcast(Ev::A));
+                    v.push(Op::EntityEvent(Ev::A, 0));
+                    v.push(Op::Insert(Comp::A, 0, 1));
+                    v.push(Op::Mutate(Comp::A, 0, How::GetMut));
+                    v.push(Op::Mutate(Comp::A, 0, How::Trigger));
+                    v.push(Op::RemoveComp(Comp::A, 0));
+                    v.push(Op::Register(1, Bundle::two(Trig::EntityEvent(Ev::B, 0), Trig::Despawn(0)), Mode::Persistent));
+                    if i.n_actors < 4 { v.push(Op::RegisterNew(Variant::Plain, Bundle::two(Trig::EntityMutation(Comp::A, 0), Trig::Despawn(0)), Mode::Cleanup)); }
+                    for k in i.ready_tokens() { v.push(Op::Revoke(k)); }
+                    v
+                });
+                c.script = alpha.clone();
+                c.top = alpha;
+                c.max_top = 2;
+                c.budget = n;
+                c.max_per_run = 3;
+                c.max_runs = 300;
+                c.final_gc = true;
+                items.push(item(c, "stale", &format!("N={n}")));
+            }
+            reports = vec!["C18"];
+            rule = "fault enumeration: every public operation naming a system, reactor or entity (run, system event, \
+                entity event, insert, mutate, trigger, remove, register existing / new reactor with entity triggers, \
+                revoke) combined with despawns of its target before it is queued, between queuing and applying, after \
+                scheduling and before the reaction runs, while postponed, and during the target's own run; no panic, \
+                nothing runs for a dead target, payloads released, tables of other registrations intact".into();
             assumptions = base_assumptions;
         }
         _ => return None,
